@@ -965,6 +965,50 @@ func genTsBatch(g *gen) {
 		}
 	}
 
+	// ---------------------------------------------------------------- a Fatalf inside a deferred function
+	if run := g.funcDecl(dir, "TestScript.run"); run != nil {
+		// defer func() { defer catchFailNow(func() { ts.t.FailNow() }); ts.deferred() }()
+		caught := false
+		for _, st := range run.Body.List {
+			ds, ok := st.(*ast.DeferStmt)
+			if !ok {
+				continue
+			}
+			fl, ok := ds.Call.Fun.(*ast.FuncLit)
+			if !ok {
+				continue
+			}
+			callsDeferred, catchBefore := false, false
+			for _, inner := range fl.Body.List {
+				switch x := inner.(type) {
+				case *ast.DeferStmt:
+					if id, ok := x.Call.Fun.(*ast.Ident); ok && id.Name == "catchFailNow" && len(x.Call.Args) == 1 && !callsDeferred {
+						failsNow := false
+						ast.Inspect(x.Call.Args[0], func(n ast.Node) bool {
+							if c, ok := n.(*ast.CallExpr); ok {
+								if se, ok := c.Fun.(*ast.SelectorExpr); ok && se.Sel.Name == "FailNow" {
+									failsNow = true
+								}
+							}
+							return true
+						})
+						if failsNow {
+							catchBefore = true
+						}
+					}
+				case *ast.ExprStmt:
+					if c, ok := x.X.(*ast.CallExpr); ok && tsbIsSel(c.Fun, "ts", "deferred") {
+						callsDeferred = true
+					}
+				}
+			}
+			if callsDeferred && catchBefore {
+				caught = true
+			}
+		}
+		g.tsbEmitBool("deferred_failnow_caught", "testscript.run: the deferred call of ts.deferred() is wrapped in `defer catchFailNow(func() { ts.t.FailNow() })`: a Fatalf or Check inside a function registered with Defer fails the run instead of letting the failNow panic escape RunT", caught)
+	}
+
 	ce := g.funcDecl(dir, "TestScript.cmdExec")
 	if ce != nil {
 		okBg := false
